@@ -66,6 +66,7 @@ type stats struct {
 	reports       int
 	outstanding   int  // report requests sent and never answered
 	unsendable    int  // notifications for which no report request could be sent
+	replaced      bool // Remove URR and Create URR for one id in one message
 	lostAnswers   int  // Modification Responses that reached the SMF through a retransmission of the request only
 	refusedCreate bool // a Create URR for a URR that exists
 	sendFailed    int  // report requests that reached the SMF as a retransmission only (first transmission failed locally)
@@ -181,11 +182,24 @@ func gen(t *rapid.T) Case {
 		case "mod":
 			var rules []stack.RuleOp
 			touched := map[uint32]bool{}
+			named := map[uint32]bool{}
 			nr := rapid.IntRange(1, 4).Draw(t, "nrules")
 			for j := 0; j < nr; j++ {
 				id := uint32(rapid.IntRange(1, 3).Draw(t, "urr"))
-				switch rapid.SampledFrom([]string{"query", "query", "update", "removeurr", "createurr", "createurr-again", "removepdr", "updatepdr", "createpdr"}).Draw(t, "rule") {
+				switch rapid.SampledFrom([]string{"query", "query", "update", "removeurr", "createurr", "createurr-again", "replaceurr", "removepdr", "updatepdr", "createpdr"}).Draw(t, "rule") {
+				case "replaceurr":
+					// Remove URR and Create URR for one id in one message (a legal way of replacing a rule).  In whatever order the
+					// two are applied, the final report of the URR that was there continues its numbering; whether a URR exists
+					// afterwards depends on the order (create first: refused, then removed), but if one does it starts at 0
+					// (not for a URR whose removal produces no final report: go-upf learns of a removal through that report only, and
+					// whether the data plane has the URR afterwards - and may report for it - depends on the order)
+					if g.urr[id] && !touched[id] && !named[id] && !quiet[id] {
+						rules = append(rules, stack.RuleOp{Verb: "remove", Kind: "URR", ID: id},
+							stack.RuleOp{Verb: "create", Kind: "URR", ID: id, Method: uint8(rapid.IntRange(0, 7).Draw(t, "method")), Trig: 0x0102})
+						touched[id] = true
+					}
 				case "query":
+					named[id] = true
 					if g.urr[id] && !touched[id] {
 						rules = append(rules, stack.RuleOp{Verb: "query", Kind: "URR", ID: id})
 						if rapid.IntRange(0, 3).Draw(t, "twice") == 0 {
@@ -193,6 +207,7 @@ func gen(t *rapid.T) Case {
 						}
 					}
 				case "update":
+					named[id] = true
 					if g.urr[id] && !touched[id] {
 						rules = append(rules, stack.RuleOp{Verb: "update", Kind: "URR", ID: id, Method: uint8(rapid.IntRange(0, 7).Draw(t, "method")), Trig: 0x0102})
 					}
@@ -518,6 +533,13 @@ func run(c Case) (v *vcore.Violation, stt stats) {
 			for _, ru := range ev.Rules {
 				if ru.Kind == "URR" && ru.Verb == "remove" {
 					endInc(ikey{ev.Sess, ru.ID})
+					for _, cr := range ev.Rules {
+						if cr.Kind == "URR" && cr.Verb == "create" && cr.ID == ru.ID {
+							// replaced in one message: if a URR exists under the id now, it is a new one
+							cur[ikey{ev.Sess, ru.ID}] = &inc{carriers: map[string]bool{}}
+							stt.replaced = true
+						}
+					}
 				}
 			}
 		case "del":
@@ -557,6 +579,9 @@ func account(c Case, s stats) {
 	}
 	if s.unsendable > 0 && s.reports > 0 {
 		vcore.E.Class("reports_in_responses_after_notifications_that_could_not_be_sent")
+	}
+	if s.replaced {
+		vcore.E.Class("urr_removed_and_created_in_one_message")
 	}
 	if s.lostAnswers > 0 {
 		vcore.E.Class("modification_response_whose_first_transmission_failed")
